@@ -5,5 +5,5 @@ THEOREMS = []
 TRUSTED = []
 ASSUMPTIONS = []
 LEVEL_TEXT = 'Lean theorems: sliding-window exponentiation computes b^e in any monoid for every window size; REDC returns x·B^-n mod m below m; CRT recombination for even moduli; every mpz_powm path returns b^e mod |m| in range and well formed; exact powers. Differential run over odd/even/power-of-two moduli and all window widths.'
-LEVEL_NOTE = 'redc_n and limb bookkeeping by correspondence only.'
+LEVEL_NOTE = "mpn_redc_2 by correspondence only; mpn_mulmod_bnm1 / mpn_binvert internals and mpn_mulmod_bnm1_next_size above 256 limbs are hypotheses of the limb-level theorems; mpz_powm_ui at value level."
 PLACEHOLDER = True
